@@ -8,6 +8,7 @@ import struct
 import namekeys
 
 USIZE = 1 << 64
+ISIZE_MAX = (1 << 63) - 1
 
 
 def B(bs):
@@ -65,9 +66,14 @@ class Ref:
             return "err:oob"
         if a % 4 != 0 or n % 4 != 0:
             return "err:unaligned"
-        self.d[a:a] = bytes(n)
         kappa = lambda x: x + n if x >= a else x                      # strings, pointer cells, c-string cells
         tau = lambda x: x + n if (x > a or (x == a and ge)) else x    # labels, pointer targets
+        # "shifts every ... pointer target ... by n": possible only if the shifted archive exists - the new size must be a
+        # vector length (<= isize::MAX) and every relocated target an address (a usize); otherwise the request is rejected
+        # and nothing changes (property text: "rejected and leave the archive unchanged"; code since fix 0edd128, F24)
+        if len(self.d) + n > ISIZE_MAX or any(tau(v) >= USIZE for v in self.ptr.values()):
+            return "err:oob"
+        self.d[a:a] = bytes(n)
         self.text = {kappa(k): v for k, v in self.text.items()}
         self.ptr = {kappa(k): tau(v) for k, v in self.ptr.items()}
         self.lab = {tau(k): v for k, v in self.lab.items()}
